@@ -19,6 +19,7 @@ namespace tapkee_internal
 __TAPKEE_IMPLEMENTATION(NeighborhoodPreservingEmbedding)
     void validate()
     {
+        parameters[target_dimension].checked().satisfies(InRange<IndexType>(1, current_dimension + 1)).orThrow();
     }
 
     TapkeeOutput embed()
